@@ -18,10 +18,29 @@ NEXT GNext
 CONSTANTS MaxLen = %d
 CHECK_DEADLOCK FALSE
 """
-IDMAP = {"x": "objx", "y": "objy", "daemon": "Pyro.Daemon", "nosuch": "no-such-id"}
+IDMAP = {"x": "objx", "y": "objy", "daemon": "Pyro.Daemon", "nosuch": "no-such-id", "sp": "obj with blank", "at": "obj@at"}
+BAD_IDS = ("sp", "at")
 
 
 class Thing(object):
+    """the worst-behaved kind of application object: empty as a container, equal to every other Thing"""
+    def __init__(self, k):
+        self.k = k
+
+    def __len__(self):
+        return 0
+
+    def __eq__(self, other):
+        return isinstance(other, Thing)
+
+    def __hash__(self):
+        return 7
+
+
+class Slotted(object):
+    """cannot carry the registry's attributes"""
+    __slots__ = ("k",)
+
     def __init__(self, k):
         self.k = k
 
@@ -32,6 +51,7 @@ class ThingCopy(object):
         self.k = k
 
 
+SERS = ["serpent", "json", "msgpack", "marshal"]
 _setup_done = False
 
 
@@ -59,7 +79,8 @@ def run_histories(jobs):
 
     def main():
         sc = S.CUR
-        for h, ser in jobs:
+        for jobno, (h, ser) in enumerate(jobs):
+            rotate = jobno % 2 == 1
             sc.set_budget(40000)
             tr = []
             d = P.Daemon(host="127.0.0.1")
@@ -71,7 +92,7 @@ def run_histories(jobs):
                 @P.expose
                 def whoami(self):
                     return 3
-            objs = {1: Thing(1), 2: Thing(2), 3: Klass}
+            objs = {1: Thing(1), 2: Thing(2), 3: Klass, 4: Slotted(4)}
 
             class Helper(object):
                 @P.expose
@@ -112,11 +133,16 @@ def run_histories(jobs):
                 except Exception as x:
                     return "other:" + type(x).__name__, None
             try:
-                for ev in h:
+                base_ser = ser
+                for evno, ev in enumerate(h):
                     a, o, i = ev["a"], ev["o"], ev["id"]
+                    # the serializer changes from step to step (what one of them does to an object must not show under another)
+                    ser = SERS[(SERS.index(base_ser) + evno) % len(SERS)] if rotate else base_ser
                     if a == "register":
                         if i == "gen":
                             out, uri = outcome(lambda: d.register(objs[o], None, force=False, weak=ev["weak"]))
+                            if o == 4 and out not in ("ok", "TypeError"):
+                                out = "error"
                             gotid = ""
                             if out == "ok":
                                 gen_ids.append(uri.object)
@@ -126,6 +152,8 @@ def run_histories(jobs):
                             tr.append(dict(ev, out=out.split(":")[0], gotid=gotid, daemon_kept=kept()))
                         else:
                             out, _ = outcome(lambda: d.register(objs[o], real_id(i), force=ev["force"], weak=ev["weak"]))
+                            if (o == 4 or i in BAD_IDS) and out not in ("ok", "TypeError"):
+                                out = "error"       # refused: which exception says so is not prescribed
                             tr.append(dict(ev, out=out.split(":")[0], gotid="", daemon_kept=kept()))
                     elif a == "unregister_id":
                         out, _ = outcome(lambda: d.unregister(real_id(i)))
